@@ -1000,6 +1000,404 @@ def check_transfer_block(part: Part, mode: str, size: int, first: Optional[Tuple
 
 
 # =====================================================================================================================
+# EDIT-AFTER-PARSE ("serialise-then-parse of any model", including models that came out of a parse)
+# =====================================================================================================================
+# LLMeshSerializer(parse_segment_contents, allow_invalid_segments, include_raw_segments): every combination is used as a
+# writer; the four parse_segment_contents=True ones as readers whose output is edited, the other four as no-edit readers.
+MESH_CFGS = [(p, a, r) for p in (True, False) for a in (False, True) for r in (False, True)]
+MESH_READERS_QUICK = [(True, False, True), (True, False, False)]
+MESH_WRITERS_QUICK = [(True, False, False), (True, False, True), (True, True, False)]
+
+
+def _cfg_name(c) -> str:
+    return "".join(ch for ch, on in zip("PAR", c) if on) or "none"   # P=parse contents, A=allow invalid, R=include raw
+
+
+def _mk_ser(c) -> LLMeshSerializer:
+    return LLMeshSerializer(parse_segment_contents=c[0], allow_invalid_segments=c[1], include_raw_segments=c[2])
+
+
+def _geo_materials(m: MeshAsset):
+    for kind, seg in m.segments.items():
+        if (kind in ag.LODS or kind == "physics_mesh") and isinstance(seg, list):
+            for mat in seg:
+                if isinstance(mat, dict) and "Position" in mat:
+                    yield kind, mat
+
+
+def _e_vertex(m):
+    from hippolyzer.lib.base.datatypes import Vector3
+    for _, mat in _geo_materials(m):
+        pos = mat["Position"]
+        if pos:
+            new = Vector3(0.0, 0.0, 0.0) if tuple(pos[0]) != (0.0, 0.0, 0.0) else (copy.deepcopy(pos[-1]) if tuple(pos[-1]) != tuple(pos[0]) else None)
+            if new is None:
+                continue
+            pos[0] = new
+            return True
+    return False
+
+
+def _e_vertex_add(m):
+    from hippolyzer.lib.base.datatypes import Vector2, Vector3
+    for _, mat in _geo_materials(m):
+        mat["Position"].append(Vector3(0.0, 0.0, 0.0))       # grid points of each member's domain
+        if "Normal" in mat:
+            mat["Normal"].append(Vector3(-1.0, -1.0, -1.0))
+        if "TexCoord0" in mat:
+            mat["TexCoord0"].append(Vector2(0.0, 0.0))
+        if "Weights" in mat:
+            mat["Weights"].append([])
+        return True
+    return False
+
+
+def _e_weight(m):
+    from hippolyzer.lib.base.mesh import VertexWeight
+    for _, mat in _geo_materials(m):
+        for infl in mat.get("Weights", ()):
+            if infl:
+                infl[0] = VertexWeight((int(infl[0].joint_idx) + 1) % 255, infl[0].weight)
+                return True
+    for _, mat in _geo_materials(m):
+        for infl in mat.get("Weights", ()):
+            infl.append(VertexWeight(3, 1.0))
+            return True
+    return False
+
+
+def _e_weight_drop(m):
+    for _, mat in _geo_materials(m):
+        for infl in mat.get("Weights", ()):
+            if infl:
+                infl.pop()
+                return True
+    return False
+
+
+def _e_material_add(m):
+    for kind, seg in m.segments.items():
+        if (kind in ag.LODS or kind == "physics_mesh") and isinstance(seg, list) and seg:
+            seg.append(copy.deepcopy(seg[0]))
+            return True
+    return False
+
+
+def _e_material_drop(m):
+    for kind, seg in m.segments.items():
+        if (kind in ag.LODS or kind == "physics_mesh") and isinstance(seg, list) and len(seg) > 1:
+            seg.pop()
+            return True
+    return False
+
+
+def _e_lod_remove(m):
+    for kind in list(m.segments):
+        if kind in ag.LODS:
+            m.segments.pop(kind)
+            m.raw_segments.pop(kind, None)
+            m.header.pop(kind, None)
+            return True
+    return False
+
+
+def _e_lod_add(m):
+    have = [k for k in m.segments if k in ag.LODS]
+    free = [k for k in ag.LODS if k not in m.segments and k not in m.header]
+    if have and free:
+        m.segments[free[0]] = copy.deepcopy(m.segments[have[0]])
+        m.header[free[0]] = {"offset": 0, "size": 0}
+        return True
+    return False
+
+
+def _e_segment_add(m):
+    m.segments["x_added_segment"] = {"note": "added after parse", "n": [1, 2, 3]}
+    m.header["x_added_segment"] = {"offset": 0, "size": 0}
+    return True
+
+
+def _e_header(m):
+    m.header["creator"] = UUID(ag.uid(0x99))
+    m.header["physics_cost_data"] = {"hull": 0.5, "mesh_triangles": 3}
+    return True
+
+
+def _e_skin(m):
+    skin = m.segments.get("skin")
+    if isinstance(skin, dict) and "joint_names" in skin:
+        skin["pelvis_offset"] = 0.75
+        skin["joint_names"] = list(skin["joint_names"]) + ["mAdded"]
+        return True
+    return False
+
+
+def _e_convex(m):
+    from hippolyzer.lib.base.datatypes import Vector3
+    cv = m.segments.get("physics_convex")
+    if isinstance(cv, dict) and cv.get("BoundingVerts"):
+        cv["BoundingVerts"] = list(cv["BoundingVerts"]) + [Vector3(-1.0, -1.0, -1.0)]
+        return True
+    return False
+
+
+MESH_EDITS = (("none", lambda m: True), ("vertex", _e_vertex), ("vertex-add", _e_vertex_add), ("weight", _e_weight),
+              ("weight-drop", _e_weight_drop), ("material-add", _e_material_add), ("material-drop", _e_material_drop),
+              ("lod-remove", _e_lod_remove), ("lod-add", _e_lod_add), ("segment-add", _e_segment_add), ("header", _e_header),
+              ("skin", _e_skin), ("convex", _e_convex))
+
+
+def _header_view(h: Dict[str, Any]) -> Dict[str, Any]:
+    """Header without the offset/size members the writer owns."""
+    out = {}
+    for k, v in h.items():
+        if isinstance(v, dict) and "offset" in v and "size" in v:
+            out[k] = {a: b for a, b in v.items() if a not in ("offset", "size")}
+        else:
+            out[k] = v
+    return out
+
+
+def check_mesh_edits(part: Part, spec: Dict[str, Any], grid: str):
+    """Parse the case with each reader configuration, edit the *parsed* model in place, write it with each writer
+    configuration, parse again: the result must equal the edited model.  grid = 'quick' | 'full' (reader x writer grid)."""
+    outer = spec.get("outer", "!")
+    m0, _ = ag.build_mesh_raw(spec)
+    try:
+        w0 = _mesh_write(LLMeshSerializer(), m0, outer)
+    except Exception:
+        return   # reported by check_mesh
+    readers = [c for c in MESH_CFGS if c[0]] if grid == "full" else MESH_READERS_QUICK
+    writers = MESH_CFGS if grid == "full" else MESH_WRITERS_QUICK
+    plain = LLMeshSerializer()
+    for rc in readers:
+        rname = _cfg_name(rc)
+        try:
+            base = _mesh_read(_mk_ser(rc), w0, outer)
+        except Exception as e:
+            part.violation("mesh-edit-roundtrip", f"mesh:read-{rname}:{_exc_site(e)}", {"part": "mesh-edit", "spec": spec, "grid": grid}, repr(e))
+            continue
+        for ename, edit in MESH_EDITS:
+            m = copy.deepcopy(base)
+            if not edit(m):
+                continue
+            want_segments, want_header = copy.deepcopy(dict(m.segments)), _header_view(copy.deepcopy(dict(m.header)))
+            for wc in writers:
+                part.count("evaluations")
+                part.count("mesh_edit_roundtrips")
+                witness = {"part": "mesh-edit", "spec": spec, "grid": grid, "reader": list(rc), "edit": ename, "writer": list(wc)}
+                site = f"mesh:edited-{ename}:read-{rname}"
+                try:
+                    w1 = _mesh_write(_mk_ser(wc), m, outer)
+                    m2 = _mesh_read(plain, w1, outer)
+                except Exception as e:
+                    part.violation("mesh-edit-roundtrip", f"{site}:{_exc_site(e)}", witness, f"writer {_cfg_name(wc)}: {e!r}")
+                    continue
+                d = deep_diff(want_segments, dict(m2.segments)) or deep_diff(want_header, _header_view(m2.header), "header")
+                if d is not None:
+                    part.violation("mesh-edit-roundtrip", f"{site}:{_norm_path(d)}", witness,
+                                   f"reader {rname}, edit {ename}, writer {_cfg_name(wc)}: re-parsed model differs from the edited one at {d}")
+                if ename == "none" and w1 != w0:
+                    part.violation("mesh-segment-bytes", f"mesh:untouched:read-{rname}", witness,
+                                   f"writer {_cfg_name(wc)}: untouched model does not reproduce the file (byte {_first_diff(w1, w0)})")
+            part.mark_nontrivial(("mesh-edit", rname, ename, tuple(spec["kinds"])))
+        part.outcome(("mesh-edit", rname, len(w0), zlib.crc32(w0)))
+    if grid == "full":   # readers that keep segment contents unparsed: no model to edit, every writer must reproduce the file
+        for rc in [c for c in MESH_CFGS if not c[0]]:
+            try:
+                base = _mesh_read(_mk_ser(rc), w0, outer)
+                for wc in writers:
+                    part.count("evaluations")
+                    part.count("mesh_edit_roundtrips")
+                    if _mesh_write(_mk_ser(wc), base, outer) != w0:
+                        part.violation("mesh-raw-roundtrip", f"mesh:unparsed:read-{_cfg_name(rc)}",
+                                       {"part": "mesh-edit", "spec": spec, "grid": grid}, f"writer {_cfg_name(wc)} does not reproduce the file")
+            except Exception as e:
+                part.violation("mesh-raw-roundtrip", f"mesh:unparsed:read-{_cfg_name(rc)}:{_exc_site(e)}", {"part": "mesh-edit", "spec": spec, "grid": grid}, repr(e))
+
+
+def _anim_edits(a: Animation, quant: bool):
+    """(name, edited copy) pairs; new values are taken from the parsed animation itself or are exact grid points."""
+    from hippolyzer.lib.base.llanim import Constraint, Joint, PosKeyframe, RotKeyframe
+    from hippolyzer.lib.base.datatypes import Quaternion, Vector3
+
+    def cp():
+        return copy.deepcopy(a)
+
+    out = []
+    from hippolyzer.lib.base.llanim import HandPose
+    b = cp()
+    b.hand_pose = HandPose((int(a.hand_pose) + 1) % ag.N_HAND_POSES)
+    b.emote_name, b.base_priority, b.loop = a.emote_name + "x", a.base_priority + 1, 1 - a.loop
+    out.append(("scalars", b))
+    joints = list(a.joints.items(multi=True))
+    for ji, (name, j) in enumerate(joints):
+        if j.rot_keyframes or j.pos_keyframes:
+            b = cp()
+            bj = list(b.joints.items(multi=True))[ji][1]
+            if bj.rot_keyframes:
+                kf = bj.rot_keyframes[0]
+                kf.time = 0.0 if kf.time != 0.0 else bj.rot_keyframes[-1].time
+                kf.rot = Quaternion(0.0, 0.0, 0.0) if tuple(kf.rot) != tuple(Quaternion(0.0, 0.0, 0.0)) else copy.deepcopy(bj.rot_keyframes[-1].rot)
+            if bj.pos_keyframes:
+                kf = bj.pos_keyframes[-1]
+                kf.pos = Vector3(0.0, 0.0, 0.0) if tuple(kf.pos) != (0.0, 0.0, 0.0) else copy.deepcopy(bj.pos_keyframes[0].pos)
+            bj.priority = j.priority - 1 if j.priority > 0 else j.priority + 1
+            out.append(("keyframe", b))
+            b = cp()
+            bj = list(b.joints.items(multi=True))[ji][1]
+            if bj.rot_keyframes:
+                bj.rot_keyframes.append(copy.deepcopy(bj.rot_keyframes[0]))
+                bj.pos_keyframes.append(PosKeyframe(time=bj.rot_keyframes[0].time, pos=Vector3(0.0, 0.0, 0.0)))
+            else:
+                bj.pos_keyframes.pop()
+                bj.rot_keyframes.append(RotKeyframe(time=0.0, rot=Quaternion(0.0, 0.0, 0.0)))
+            out.append(("keyframe-count", b))
+            break
+    b = cp()
+    b.joints.add("mAdded", Joint(priority=3, rot_keyframes=[RotKeyframe(time=0.0, rot=Quaternion(0.0, 0.0, 0.0))], pos_keyframes=[]))
+    if joints:
+        b.joints.add(joints[0][0], Joint(priority=2, rot_keyframes=[], pos_keyframes=[]))   # duplicate name on purpose
+    out.append(("joint-add", b))
+    if joints:
+        b = cp()
+        rest = joints[1:]
+        b.joints = type(a.joints)([(n, copy.deepcopy(j)) for n, j in rest])
+        out.append(("joint-remove", b))
+    b = cp()
+    if b.constraints:
+        b.constraints.pop()
+    else:
+        b.constraints.append(Constraint(chain_length=2, type=1, source_volume="mPelvis", source_offset=Vector3(0.5, 0.25, -1.0),
+                                        target_volume="", target_offset=Vector3(0.0, 0.0, 0.0), target_dir=Vector3(0.0, 1.0, 0.0),
+                                        ease_in_start=0.0, ease_in_stop=0.5, ease_out_start=1.0, ease_out_stop=0.25))
+    out.append(("constraint", b))
+    return out
+
+
+def check_anim_edits(part: Part, spec: Dict[str, Any]):
+    ver = f"v{spec['ver'][0]}.{spec['ver'][1]}"
+    try:
+        a = Animation.from_bytes(ag.anim_wire(spec))
+        edits = _anim_edits(a, tuple(spec["ver"]) == (1, 0))
+    except Exception:
+        return   # reported by check_anim
+    for ename, b in edits:
+        part.count("evaluations")
+        part.count("anim_edit_roundtrips")
+        witness = {"part": "anim-edit", "spec": spec, "edit": ename}
+        try:
+            w1 = b.to_bytes()
+            b2 = Animation.from_bytes(w1)
+        except Exception as e:
+            part.violation("anim-edit-roundtrip", f"Animation:{ver}:edited-{ename}:{_exc_site(e)}", witness, repr(e))
+            continue
+        if not (b2 == b):
+            part.violation("anim-edit-roundtrip", f"Animation:{ver}:edited-{ename}:{_anim_diff(b, b2)}", witness,
+                           f"edited {_short(b, 300)} re-parsed {_short(b2, 300)}")
+        elif b2.to_bytes() != w1:
+            part.violation("anim-fixed-point", f"Animation.to_bytes:{ver}:edited-{ename}", witness, "second serialisation differs")
+        part.mark_nontrivial(("anim-edit", ver, ename, len(spec["joints"]), len(spec["constraints"])))
+        part.outcome(("anim-edit", ename, zlib.crc32(bytes(w1))))
+
+
+def _model_codec(flavor: str):
+    if flavor == "text":
+        return (lambda m: m.to_str()), InventoryModel.from_str, "InventoryModel.from_reader"
+    return (lambda m: m.to_llsd(flavor)), (lambda d: InventoryModel.from_llsd(copy.deepcopy(d), flavor)), "InventoryModel.from_llsd"
+
+
+def _model_edits(flavor: str):
+    def rename(m):
+        n = next(iter(m.nodes.values()))
+        n.name = "edited after parse"
+        return True
+
+    def item_fields(m):
+        for n in m.nodes.values():
+            if isinstance(n, InventoryItem) and not (flavor == "ais" and n.type == AssetType.LINK):
+                n.flags = 0x00100000 if n.flags != 0x00100000 else 1
+                n.desc = None if n.desc is not None else "added desc"
+                n.permissions.next_owner_mask = 0x0008E000 if n.permissions.next_owner_mask != 0x0008E000 else 0
+                return True
+        return False
+
+    def category_fields(m):
+        for n in m.nodes.values():
+            if isinstance(n, InventoryCategory):
+                n.pref_type = FolderType.TRASH if n.pref_type != FolderType.TRASH else FolderType.NONE
+                n.owner_id = None if n.owner_id is not None else UUID(ag.uid(0xA7))
+                if flavor != "text":
+                    n.version = n.version + 1
+                return True
+        return False
+
+    def remove(m):
+        if not m.nodes:
+            return False
+        m.unlink(list(m.nodes.values())[-1], single_only=True)
+        return True
+
+    def add(m):
+        m.add(ag.build_node(ag.restrict(ag.item_spec(ag.ALL_ITEM, 2, 9, ident=0x1F0, parent=ag.uid(0x100)), flavor)))
+        m.add(ag.build_node(ag.restrict(ag.category_spec(ag.CATEGORY, 14, True, 2, 1, 4, ident=0x1F1, parent=ag.uid(0x1F0)), flavor)))
+        return True
+
+    def upsert(m):
+        if not m.nodes:
+            return False
+        old = next(iter(m.nodes.values()))
+        new = copy.copy(old)
+        new.model = None
+        new.name = "upserted"
+        new.parent_id = UUID(ag.uid(0x1FE))
+        m.upsert(new)
+        return True
+
+    return (("rename", rename), ("item-fields", item_fields), ("category-fields", category_fields), ("remove", remove), ("add", add),
+            ("upsert", upsert))
+
+
+def check_model_edits(part: Part, mspec: Dict[str, Any], flavor: str):
+    mspec = {"nodes": [ag.restrict(s, flavor) for s in mspec["nodes"]]}
+    ser, par, par_name = _model_codec(flavor)
+    for ename, edit in _model_edits(flavor):
+        witness = {"part": "inv-model-edit", "flavor": flavor, "spec": mspec, "edit": ename}
+        try:
+            m = par(ser(build_model(mspec)))          # the model under edit came out of a parse
+            if len(m.nodes) != len(mspec["nodes"]) or not edit(m):
+                continue
+        except Exception:
+            return   # reported by check_model
+        part.count("evaluations")
+        part.count("inv_model_edit_roundtrips")
+        try:
+            s1 = ser(m)
+            m2 = par(s1)
+        except Exception as e:
+            part.violation("model-edit-roundtrip", f"{par_name}:{flavor}:edited-{ename}:{_exc_site(e)}", witness, repr(e))
+            continue
+        bad = None
+        for nid, node in m.nodes.items():
+            got = m2.nodes.get(nid)
+            if got is None:
+                bad = f"{_kind(node)}-dropped"
+            elif not (got == node):
+                bad = f"{_kind(node)}:{_diff_fields(node, got)}"
+            if bad:
+                break
+        if bad is None and set(m2.nodes) != set(m.nodes):
+            bad = "extra-node"
+        if bad is not None:
+            part.violation("model-edit-roundtrip", f"{par_name}:{flavor}:edited-{ename}:{bad}", witness,
+                           f"edited model {_short(list(m.nodes.values()), 300)} re-parsed {_short(list(m2.nodes.values()), 300)}")
+        elif ser(m2) != s1:
+            part.violation("model-fixed-point", f"InventoryModel:{flavor}:edited-{ename}", witness, "second serialisation differs")
+        part.mark_nontrivial(("inv-model-edit", flavor, ename, tuple(s["k"] for s in mspec["nodes"])))
+        part.outcome(("inv-model-edit", flavor, ename, len(m2.nodes)))
+
+
+# =====================================================================================================================
 # work units
 # =====================================================================================================================
 _FULL = False
@@ -1022,6 +1420,7 @@ def _work(unit):
         flavor, specs = payload
         for s in specs:
             check_model(part, s, flavor)
+            check_model_edits(part, s, flavor)
     elif kind == "enum":
         for cls_name, v in payload:
             check_enum(part, cls_name, v)
@@ -1031,6 +1430,7 @@ def _work(unit):
     elif kind == "anim":
         for s in payload:
             check_anim(part, s, {"part": "anim", "spec": s})
+            check_anim_edits(part, s)
     elif kind == "anim-grid":
         for g in payload:
             check_anim(part, ag.anim_grid_spec(g), {"part": "anim-grid", "spec": g}, tag=f":grid-{g['grid']}")
@@ -1038,6 +1438,7 @@ def _work(unit):
     elif kind == "mesh":
         for s in payload:
             check_mesh(part, s, {"part": "mesh", "spec": s})
+            check_mesh_edits(part, s, "full" if (_FULL and s.get("grid_full")) else "quick")
         if payload:
             part.sample({"part": "mesh", "kinds": payload[0]["kinds"]}, limit=1)
     elif kind == "mesh-grid":
@@ -1224,6 +1625,12 @@ def replay(w):
         check_anim(part, ag.anim_grid_spec(g), w, tag=f":grid-{g['grid']}")
     elif kind == "mesh":
         check_mesh(part, w["spec"], w)
+    elif kind == "mesh-edit":
+        check_mesh_edits(part, w["spec"], w.get("grid", "quick"))
+    elif kind == "anim-edit":
+        check_anim_edits(part, w["spec"])
+    elif kind == "inv-model-edit":
+        check_model_edits(part, w["spec"], w["flavor"])
     elif kind == "mesh-grid":
         g = w["spec"]
         check_mesh(part, {"outer": "!", "kinds": [], "materials": {}}, w, prebuilt=mesh_grid_asset(g), tag=f":grid-{g['grid']}")
